@@ -42,7 +42,22 @@ class FailAt:
     def __call__(self, lat, long):
         if self.k is not None and float(lat) == float(self.k):
             raise self.exc(f"injected failure at event {self.k}")
+        if self.top == "varying":
+            return varying_top(lat)
         return self.top
+
+
+def varying_top(lat):
+    """A cloud top that depends on the event (events carry lat = index): -inf for every third
+    event, otherwise 0.5 .. 6.5 km. Per-event state parked on a shared object shows up as a
+    wrong cloud top for some other event."""
+    i = int(round(float(lat)))
+    return -np.inf if i % 3 == 0 else 0.5 + (i * 7 % 13) * 0.5
+
+
+class VaryingCloud(FailAt):
+    def __init__(self):
+        super().__init__(None, top="varying")
 
 
 class AdversarialExecutor(cf.Executor):
